@@ -99,7 +99,7 @@ def _run_one(args):
     return cmd, outfile, p.returncode, p.stderr
 
 
-def cfgdump(units, outdir, funcs=None, records=None, calls=False, root=None,
+def cfgdump(units, outdir, funcs=None, records=None, calls=False, root=None, vars=None,
             flags_for=None, jobs=NPROC):
     """run bin/cfgdump over units in parallel; returns {unit: parsed json}."""
     tool = os.path.join(BIN, "cfgdump")
@@ -121,6 +121,8 @@ def cfgdump(units, outdir, funcs=None, records=None, calls=False, root=None,
             cmd.append("--funcs=" + funcs)
         if records:
             cmd.append("--records=" + records)
+        if vars:
+            cmd.append("--vars=" + vars)
         if calls:
             cmd.append("--calls")
         if root:
